@@ -16,7 +16,7 @@ def run(tier, seed):
     tlc_must_hold(r, "BuildDecode")
     vlib.require_coverage(r, ["AddItem"], "BuildDecode")
     c.add_tlc(r, "builder-input machine: 9 object kinds x serial forms x 5 validity windows (both UTCTime/GeneralizedTime boundaries) x "
-                 "resource shapes x URI forms x every insertion order of <= 3 list items; LayoutDiscipline, TimesRoundTrip, SerialsMinimal")
+                 "resource shapes x URI forms x every sequence of <= 3 list items out of 4 (any order, duplicates included); LayoutDiscipline, TimesRoundTrip, SerialsMinimal")
     cases += r.replay
     r = tlc("MC_TbsBuilder", cfg_with(wd, "MC_TbsBuilder.cfg", "tb.cfg", [("MaxSteps = 2", "MaxSteps = 2" if quick else "MaxSteps = 3")]),
             workers=workers, xmx="12g", timeout=5400)
@@ -24,6 +24,13 @@ def run(tier, seed):
     vlib.require_coverage(r, ["Set"], "TbsBuilder")
     c.add_tlc(r, "certificate builder state machine: every setter script of length <= 2 (quick) / 3 (thorough) from 8 TbsCert::new "
                  "states over 18 fields; SkiTracksKey, OneField")
+    cases += r.replay
+    r = tlc("MC_SobBuilder", cfg_with(wd, "MC_SobBuilder.cfg", "sob.cfg", [("MaxSteps = 2", "MaxSteps = 2" if quick else "MaxSteps = 3")]),
+            workers=workers, xmx="8g", timeout=3000)
+    tlc_must_hold(r, "SobBuilder")
+    vlib.require_coverage(r, ["Set"], "SobBuilder")
+    c.add_tlc(r, "signed-object builder state machine: every setter script of length <= 2/3 over 11 fields; the derived EE certificate "
+                 "(issuer/subject defaults, AKI, SKI = signer id, URIs, resources, signing time); SidIsSki, OneField")
     cases += r.replay
     path = write_ndjson(os.path.join(wd, "cases.ndjson"), cases)
     s = vh(["replay", "builddecode", path], timeout=5400)
